@@ -28,7 +28,7 @@ REQUIRED = ['mon.packets', 'mon.must_deliveries', 'mon.mutations_executed', 'mon
 
 
 def cases(tier, seed):
-    n = 40 if tier == 'quick' else 600
+    n = 100 if tier == 'quick' else 600
     return [{'seed': seed * 100003 + i, 'scenarios': 60 if tier == 'quick' else 120} for i in range(n)] + \
         [{'seed': -1, 'scenarios': 0, 'fixed': True}]
 
